@@ -17,7 +17,7 @@ git -C /repo worktree remove --force $wt 2>/dev/null
 git -C /repo worktree add -q --detach $wt HEAD || exit 2
 trap 'git -C /repo worktree remove --force $wt 2>/dev/null; rm -rf $wt' EXIT
 tags=""
-case $id in C09-*) tags="-tags verif";; esac
+case $id in C09-6) tags="-tags verif -race";; C09-*) tags="-tags verif";; esac
 
 pkgdir() { case ${1%_test} in utils) echo utils;; lexer) echo lexer;; runtime) echo runtime;; main) echo .;; channel) echo std/channel;; http) echo std/net/http;; json) echo std/serializer/json;; protowire) echo std/protowire;; parser) echo parser;; node) echo node;; data) echo data;; *) echo "?";; esac; }
 
